@@ -2021,3 +2021,47 @@ def time_arithmetic(chk, P, prefix):
                     sites.append(c.loc)
         return True, "", sites
     chk.ob("%s.R5:time-arithmetic" % prefix, "no panicking Duration/Instant operator arithmetic outside a reasoned table (remaining-time computations saturate)", f)
+
+
+def workers_run_to_completion(chk, P, prefix):
+    """`When the last sender is dropped the receiver delivers what is still queued ... and terminates`: where one worker drives several receivers
+    (emit_otlp: one `Receiver::exec` future per configured signal, pushed into a FuturesUnordered), the worker's future may only finish when
+    *every* receiver's future has finished - otherwise the receiver whose channel is empty returns first at shutdown, the runtime is dropped and
+    the other signals' final batches are cancelled mid-request.  Structural part: in every body that collects >= 2 `Receiver::exec` futures into a
+    stream, the stream is awaited through a whole-stream combinator (collect / for_each / count / fold ..) or through `next()` inside a loop;
+    `StreamExt::into_future` (first item only), a lone `next()` or `select_next_some()` is a violation."""
+    WHOLE = ("collect", "for_each", "for_each_concurrent", "count", "fold", "try_for_each", "try_collect", "all", "any")
+    FIRST = ("into_future", "next", "select_next_some", "poll_next_unpin", "try_next")
+    hosts = []
+    for k, b in sorted(P.bodies.items()):
+        ex = [c for c in b.calls(normal_only=True) if (c.callee.get("path") or "").startswith("emit_batcher::Receiver::") and c.callee.get("name") == "exec"]
+        if len(ex) >= 2:
+            hosts.append((b, ex))
+
+    def f():
+        if not hosts:
+            raise mir.AnchorMissing("a worker that drives several Receiver::exec futures (emit_otlp's spawn_inner)")
+        ev = []
+        for b, ex in hosts:
+            st = [c for c in b.calls(normal_only=True) if "futures_util::stream" in (c.callee.get("trait") or c.callee.get("path") or "")
+                  and (c.callee.get("trait") or "").endswith("StreamExt")]
+            joins = [c for c in b.calls(normal_only=True) if c.callee.get("name") in ("join_all", "join", "join3", "try_join_all") and "futures" in (c.callee.get("path") or "")]
+            if not st and not joins:
+                raise mir.AnchorMissing("the await of the receivers' futures in %s" % b.key)
+            good = bool(joins)
+            for c in st:
+                nm = c.callee.get("name")
+                if nm in WHOLE:
+                    good = True
+                elif nm in FIRST:
+                    if nm != "into_future" and b.in_cycle(c.bb):
+                        good = True
+                        continue
+                    return False, ("%s awaits its %d receivers through StreamExt::%s at %s, which completes as soon as the *first* receiver has finished: "
+                                   "when the emitter is dropped the signal with nothing queued returns at once, the worker's runtime is torn down and the "
+                                   "other signals' last batches are never delivered" % (b.key, len(ex), nm, c.loc)), [], c.loc
+            if not good:
+                raise mir.AnchorMissing("a recognised whole-stream await of the receivers' futures in %s" % b.key)
+            ev.append(b.span)
+        return True, "", ev
+    chk.ob("%s.R4:workers-run-to-completion" % prefix, "a worker that drives several receivers finishes only when every receiver has finished", f)
